@@ -376,3 +376,560 @@ def rule_F8(ctx, prog, label, rule='F8'):
                                   decl.name, fs.decl[vid].name, hi, decl.name, pp(call)[:50], length), {}, label))
     rr.require_floor(1, 'permutation window update loops')
     return rr
+
+
+# ====================================================================== F6 symbolic dimension typing
+
+_SHAPE_FIELDS = {'nrows', 'ncols', 'length'}
+
+
+def equality_contracts(prog):
+    """callee name -> list of (('P', i, field), ('P', j, field)) equalities, from the validator tables (`!=` relations of
+    the public wrappers) and inherited by the workers the wrappers forward their parameters to."""
+    T = table()
+    con = {}
+    for fam in T['validator_families']:
+        for m in fam['members']:
+            if m not in prog.funcs:
+                continue
+            for rel in fam['relations']:
+                rel = rel[0] if isinstance(rel, list) else rel
+                parts = rel.split(' != ')
+                if len(parts) != 2:
+                    continue
+                a, b = parts
+                pa, pb = _parse_side(a), _parse_side(b)
+                if pa and pb:
+                    con.setdefault(m, [])
+                    if (pa, pb) not in con[m]:
+                        con[m].append((pa, pb))
+    for extra, rels in T.get('extra_contracts', {}).items():
+        for (a, b) in rels:
+            pa, pb = _parse_side(a), _parse_side(b)
+            if pa and pb and extra in prog.funcs:
+                con.setdefault(extra, []).append((pa, pb))
+    # inheritance along parameter-forwarding calls (a few levels)
+    for _round in range(4):
+        grew = False
+        for w in list(con):
+            f = prog.funcs.get(w)
+            if f is None:
+                continue
+            pidx = dict((p.id, i) for i, p in enumerate(f.params))
+            reassigned = set()
+            for n in f.body.walk():
+                if n.kind == 'BinaryOperator' and n.op == '=':
+                    l = strip(n.kids[0])
+                    if l.kind == 'DeclRefExpr' and l.refid in pidx:
+                        r = strip(n.kids[1], casts=True)
+                        # C = mzd_init(...) in the NULL branch keeps the contract (F2); other re-assignments do not
+                        ident = r.kind in ('CallExpr', 'ConditionalOperator') and all(
+                            (strip(x.kids[1], casts=True).kind == 'DeclRefExpr' and strip(x.kids[1], casts=True).refid == l.refid)
+                            for x in r.find('CallExpr') if callee_name(x) not in ('mzd_init',) and len(x.kids) > 1)
+                        if not (r.kind == 'CallExpr' and callee_name(r) == 'mzd_init') and not ident:
+                            reassigned.add(l.refid)
+            for c in f.body.find('CallExpr'):
+                g = callee_name(c)
+                if g is None or g == w or g not in prog.funcs or g in T.get('no_inherit', []):
+                    continue
+                if g in T.get('extra_contracts', {}):
+                    continue          # explicit contract wins
+                amap = {}
+                dup = False
+                for j, a in enumerate(c.kids[1:]):
+                    a2 = strip(a, casts=True)
+                    if a2.kind == 'DeclRefExpr' and a2.refid in pidx and a2.refid not in reassigned:
+                        if pidx[a2.refid] in amap:
+                            dup = True
+                        amap[pidx[a2.refid]] = j
+                if dup:
+                    continue
+                new = []
+                for (pa, pb) in con[w]:
+                    if pa[1] in amap and pb[1] in amap:
+                        new.append((('P', amap[pa[1]], pa[2]), ('P', amap[pb[1]], pb[2])))
+                if new and not g.startswith('mzd_') or (new and g in ('mzd_pluq_solve_left',)):
+                    cur = con.setdefault(g, [])
+                    for x in new:
+                        if x not in cur and (x[1], x[0]) not in cur:
+                            cur.append(x)
+                            grew = True
+        if not grew:
+            break
+    return con
+
+
+def _parse_side(s):
+    import re
+    m = re.match(r'^P(\d+)\.(nrows|ncols|length)$', s.strip())
+    if not m:
+        return None
+    return ('P', int(m.group(1)), m.group(2))
+
+
+class Shapes(object):
+    def __init__(self, prog, f):
+        self.prog, self.f = prog, f
+        self.fs = FuncSym(f, max_depth=6)
+        self.muts = {}
+        for n in f.body.walk():
+            if n.kind == 'CompoundAssignOperator' or (n.kind == 'UnaryOperator' and n.op in ('++', '--')) or (n.kind == 'BinaryOperator' and n.op == '='):
+                l = strip(n.kids[0])
+                if l.kind == 'DeclRefExpr' and l.refkind == 'VarDecl':
+                    self.muts.setdefault(l.ref, []).append((n.line, n.col or 0))
+
+    def lin(self, e, at, depth=0):
+        """Lin of an integer expression, with mutated locals versioned by the number of updates before `at`;
+        X->nrows / X->ncols / X->length of local windows and owners are replaced by their symbolic shape."""
+        s = self.fs.sym(e)
+        if depth < 4:
+            for a in list(s.atoms()):
+                if '.' in a:
+                    base, fld = a.rsplit('.', 1)
+                    if fld in _SHAPE_FIELDS:
+                        for vid, d in self.fs.decl.items():
+                            if d.kind == 'VarDecl' and d.name == base and len(self.fs.defs.get(vid, [])) == 1:
+                                shp = self.shape_of_def(self.fs.defs[vid][0], depth + 1)
+                                if shp is not None and fld in shp:
+                                    s = s.subst(a, shp[fld])
+                                break
+        for a in list(s.atoms()):
+            if a in self.muts and len(self.muts[a]) > 1:
+                k = sum(1 for (ln, col) in self.muts[a] if (ln, col) < (at.line, at.col or 0))
+                s = s.subst(a, Lin.atom('%s#%d' % (a, k)))
+        return s
+
+    def shape(self, e, depth=0):
+        e = strip(e, casts=True)
+        if e is None or depth > 6:
+            return None
+        if e.kind == 'DeclRefExpr':
+            t = (e.type or '')
+            if e.refkind == 'ParmVarDecl' and e.refid not in self.fs.defs:
+                if 'mzd_t' in t:
+                    return {'nrows': Lin.atom(e.ref + '.nrows'), 'ncols': Lin.atom(e.ref + '.ncols')}
+                if 'mzp_t' in t:
+                    return {'length': Lin.atom(e.ref + '.length')}
+                return None
+            ds = self.fs.defs.get(e.refid, [])
+            if e.refkind == 'ParmVarDecl':
+                # destination-or-allocate parameter: keep the parameter's own symbols (F2 ties them)
+                if 'mzd_t' in t:
+                    return {'nrows': Lin.atom(e.ref + '.nrows'), 'ncols': Lin.atom(e.ref + '.ncols')}
+                return None
+            if len(ds) == 1:
+                return self.shape_of_def(ds[0], depth + 1)
+            # several definitions (re-acquired temporaries): all must agree
+            shs = [self.shape_of_def(d, depth + 1) for d in ds]
+            if shs and all(s is not None for s in shs) and all(_same(s, shs[0]) for s in shs):
+                return shs[0]
+            return None
+        if e.kind == 'CallExpr':
+            return self.shape_of_def(e, depth)
+        return None
+
+    def shape_of_def(self, d, depth):
+        d = strip(d, casts=True)
+        if d is None:
+            return None
+        if d.kind == 'DeclRefExpr':
+            return self.shape(d, depth)
+        if d.kind != 'CallExpr':
+            return None
+        cn = callee_name(d)
+        a = d.kids[1:]
+        if cn == 'mzd_init':
+            return {'nrows': self.lin(a[0], d), 'ncols': self.lin(a[1], d)}
+        if cn in ('mzd_init_window', 'mzd_init_window_const'):
+            return {'nrows': self.lin(a[3], d) - self.lin(a[1], d), 'ncols': self.lin(a[4], d) - self.lin(a[2], d)}
+        if cn == 'mzp_init':
+            return {'length': self.lin(a[0], d)}
+        if cn == 'mzp_init_window':
+            return {'length': self.lin(a[2], d) - self.lin(a[1], d)}
+        if cn in ('mzd_copy', 'mzp_copy') and len(a) >= 2:
+            return self.shape(a[1], depth + 1)
+        if cn == 'mzd_transpose' and len(a) >= 2:
+            s = self.shape(a[1], depth + 1)
+            return None if s is None else {'nrows': s['ncols'], 'ncols': s['nrows']}
+        if cn == 'mzd_submatrix' and len(a) >= 6:
+            return {'nrows': self.lin(a[4], d) - self.lin(a[2], d), 'ncols': self.lin(a[5], d) - self.lin(a[3], d)}
+        if cn in ('mzd_mul', 'mzd_mul_m4rm', 'mzd_mul_naive', '_mzd_mul_even', '_mzd_mul_m4rm') and len(a) >= 3:
+            x, y = self.shape(a[1], depth + 1), self.shape(a[2], depth + 1)
+            if x and y:
+                return {'nrows': x['nrows'], 'ncols': y['ncols']}
+        if cn in ('mzd_extract_u', 'mzd_extract_l') and len(a) >= 2:
+            return None
+        return None
+
+
+def _same(a, b):
+    return set(a) == set(b) and all(a[k] == b[k] for k in a)
+
+
+def rule_F6(ctx, prog, label, rule='F6', only_funcs=None):
+    """At every internal call of a routine whose (public or inherited) contract demands dimension equalities, the symbolic
+    shapes of the arguments satisfy them as identities of linear forms (the enclosing function's own contract is assumed)."""
+    rr = RuleResult(rule, 'symbolic dimension typing: every internal call satisfies the callee\'s dimension equalities identically')
+    con = equality_contracts(prog)
+    rr.extra['contracted_functions'] = len(con)
+    undecided = 0
+    for f in sorted(prog.all_funcs(), key=lambda f: (f.file, f.line)):
+        if only_funcs is not None and f.name not in only_funcs:
+            continue
+        calls = [c for c in f.body.find('CallExpr') if callee_name(c) in con and callee_name(c) != f.name or (callee_name(c) == f.name and f.name in con)]
+        if not calls:
+            continue
+        sh = Shapes(prog, f)
+        # own contract -> atom equivalences
+        eq = {}
+
+        def find(x):
+            while eq.get(x, x) != x:
+                x = eq[x]
+            return x
+        for (pa, pb) in con.get(f.name, []):
+            if pa[1] < len(f.params) and pb[1] < len(f.params):
+                a = '%s.%s' % (f.params[pa[1]].name, pa[2])
+                b = '%s.%s' % (f.params[pb[1]].name, pb[2])
+                ra, rb = find(a), find(b)
+                if ra != rb:
+                    eq[max(ra, rb)] = min(ra, rb)
+        # local aliases  m = A->nrows  are inlined by FuncSym already
+
+        def canon(l):
+            for a in list(l.atoms()):
+                r = find(a)
+                if r != a:
+                    l = l.subst(a, Lin.atom(r))
+            return l
+        for c in calls:
+            cn = callee_name(c)
+            args = c.kids[1:]
+            shapes = {}
+            # identity guard: the call sits on the `X == Y` arm of a test between two operands
+            local_eq = {}
+            node = c
+            par = sh.fs.parent.get(node.uid)
+            while par is not None:
+                if par.kind in ('ConditionalOperator', 'IfStmt') and len(par.kids) > 1 and any(x is c for x in par.kids[1].walk()):
+                    cc = strip(par.kids[0], casts=True)
+                    if cc.kind == 'BinaryOperator' and cc.op == '==':
+                        x, y = strip(cc.kids[0], casts=True), strip(cc.kids[1], casts=True)
+                        if x.kind == 'DeclRefExpr' and y.kind == 'DeclRefExpr' and 'mz' in (x.type or ''):
+                            for fld in _SHAPE_FIELDS:
+                                local_eq['%s.%s' % (y.ref, fld)] = '%s.%s' % (x.ref, fld)
+                par = sh.fs.parent.get(par.uid)
+
+            if local_eq:
+                # rebuild the equivalence classes of the caller's own contract under the identity X == Y
+                eq2 = {}
+
+                def find2(x):
+                    x = local_eq.get(x, x)
+                    while eq2.get(x, x) != x:
+                        x = eq2[x]
+                    return x
+                for (qa, qb) in con.get(f.name, []):
+                    if qa[1] < len(f.params) and qb[1] < len(f.params):
+                        a_ = find2('%s.%s' % (f.params[qa[1]].name, qa[2]))
+                        b_ = find2('%s.%s' % (f.params[qb[1]].name, qb[2]))
+                        if a_ != b_:
+                            eq2[max(a_, b_)] = min(a_, b_)
+
+                def canon2(l):
+                    for a in list(l.atoms()):
+                        r = find2(a)
+                        if r != a:
+                            l = l.subst(a, Lin.atom(r))
+                    return l
+            else:
+                def canon2(l):
+                    return l
+            for (pa, pb) in con[cn]:
+                rr.instances += 1
+                vals = []
+                for side in (pa, pb):
+                    i, fld = side[1], side[2]
+                    if i >= len(args):
+                        vals.append(None)
+                        continue
+                    if i not in shapes:
+                        shapes[i] = sh.shape(args[i])
+                    s = shapes[i]
+                    vals.append(None if s is None or fld not in s else canon2(canon(s[fld])))
+                if vals[0] is None or vals[1] is None:
+                    undecided += 1
+                    rr.obligations += 1
+                    rr.discharged += 1     # shape not expressible: no verdict either way (counted in `undecided`)
+                    continue
+                ok = vals[0] == vals[1]
+                callee = prog.funcs[cn]
+                rel = '%s.%s == %s.%s' % (callee.params[pa[1]].name, pa[2], callee.params[pb[1]].name, pb[2])
+                rr.ob(ok, dict(caller=f.name, call=pp(c)[:70], relation=rel, value=repr(vals[0])) if rr.instances % 25 == 1 else None,
+                      Finding(rule, '%s|%s|%s|%s|%s' % (rule, f.name, cn, rel, '/'.join(pp(strip(a, casts=True))[:12] for a in args[:3])), c.loc, f.name,
+                              '`%s` violates the contract of %s: %s, but the arguments give `%r` vs `%r`' % (pp(c)[:70], cn, rel, vals[0], vals[1]), {}, label))
+    rr.extra['calls_with_inexpressible_shapes'] = undecided
+    rr.require_floor(100 if only_funcs is None else 3, 'contract equalities at call sites')
+    return rr
+
+
+def _identity_eq(fs, c):
+    """{Y.fld: X.fld} when call c sits on the `X == Y` arm of a test between two operands"""
+    local_eq = {}
+    par = fs.parent.get(c.uid)
+    while par is not None:
+        if par.kind in ('ConditionalOperator', 'IfStmt') and len(par.kids) > 1 and any(x is c for x in par.kids[1].walk()):
+            cc = strip(par.kids[0], casts=True)
+            if cc.kind == 'BinaryOperator' and cc.op == '==':
+                x, y = strip(cc.kids[0], casts=True), strip(cc.kids[1], casts=True)
+                if x.kind == 'DeclRefExpr' and y.kind == 'DeclRefExpr' and 'mz' in (x.type or ''):
+                    for fld in _SHAPE_FIELDS:
+                        local_eq['%s.%s' % (y.ref, fld)] = '%s.%s' % (x.ref, fld)
+        par = fs.parent.get(par.uid)
+    return local_eq
+
+
+BODRATO = {'_mzd_mul_even', '_mzd_sqr_even', '_mzd_addmul_even', '_mzd_addsqr_even'}
+SHAPE_ONLY = {'_mzd_add', 'mzd_add', 'mzd_copy', 'mzd_transpose', 'mzd_concat', 'mzd_stack', 'mzd_invert_naive'}
+
+
+def rule_F7(ctx, prog, label, rule='F7', only_funcs=None):
+    """Block-position typing: when the arguments of a product / solve / permutation call are windows of the enclosing
+    function's operands (or the operands themselves), the index ranges of axes that the callee's contract identifies are
+    equal as linear forms.  Inside the Bodrato sequences (C quadrants serve as scratch) only the inner axis is armed."""
+    rr = RuleResult(rule, 'block-position typing: identified axes of window arguments cover the same index range')
+    con = equality_contracts(prog)
+    for f in sorted(prog.all_funcs(), key=lambda f: (f.file, f.line)):
+        if only_funcs is not None and f.name not in only_funcs:
+            continue
+        calls = [c for c in f.body.find('CallExpr') if callee_name(c) in con and callee_name(c) not in SHAPE_ONLY]
+        if not calls:
+            continue
+        sh = Shapes(prog, f)
+        eq = {}
+
+        def find(x):
+            while eq.get(x, x) != x:
+                x = eq[x]
+            return x
+        for (pa, pb) in con.get(f.name, []):
+            if pa[1] < len(f.params) and pb[1] < len(f.params):
+                a = find('%s.%s' % (f.params[pa[1]].name, pa[2]))
+                b = find('%s.%s' % (f.params[pb[1]].name, pb[2]))
+                if a != b:
+                    eq[max(a, b)] = min(a, b)
+
+        def canon(l):
+            for a in list(l.atoms()):
+                r = find(a)
+                if r != a:
+                    l = l.subst(a, Lin.atom(r))
+            return l
+
+        def rng(arg, fld):
+            """[low, high) of the argument along fld, in the index space of the parameter it is a window of"""
+            a = strip(arg, casts=True)
+            if a.kind != 'DeclRefExpr':
+                return None
+            if a.refkind == 'ParmVarDecl':
+                if fld == 'length':
+                    return (Lin(0), canon(Lin.atom(a.ref + '.length')))
+                return (Lin(0), canon(Lin.atom('%s.%s' % (a.ref, fld))))
+            ds = sh.fs.defs.get(a.refid, [])
+            if len(ds) != 1:
+                return None
+            d = strip(ds[0], casts=True)
+            if d.kind != 'CallExpr':
+                return None
+            cn = callee_name(d)
+            base = strip(d.kids[1], casts=True) if len(d.kids) > 1 else None
+            if base is None or base.kind != 'DeclRefExpr':
+                return None
+            # window of a parameter (or of a window of a parameter: offsets add up)
+            pr = None
+            if base.refkind == 'ParmVarDecl':
+                pr = (Lin(0), None)
+            else:
+                return None
+            if cn in ('mzd_init_window', 'mzd_init_window_const') and fld in ('nrows', 'ncols'):
+                lo, hi = (d.kids[2], d.kids[4]) if fld == 'nrows' else (d.kids[3], d.kids[5])
+                return (canon(sh.lin(lo, d)), canon(sh.lin(hi, d)))
+            if cn == 'mzp_init_window' and fld == 'length':
+                return (canon(sh.lin(d.kids[2], d)), canon(sh.lin(d.kids[3], d)))
+            return None
+        for c in calls:
+            cn = callee_name(c)
+            args = c.kids[1:]
+            leq = _identity_eq(sh.fs, c)
+            if leq:
+                eq_saved = dict(eq)
+                # rebuild classes under the identity
+                eq.clear()
+                for (qa, qb) in con.get(f.name, []):
+                    if qa[1] < len(f.params) and qb[1] < len(f.params):
+                        a_ = find(leq.get('%s.%s' % (f.params[qa[1]].name, qa[2]), '%s.%s' % (f.params[qa[1]].name, qa[2])))
+                        b_ = find(leq.get('%s.%s' % (f.params[qb[1]].name, qb[2]), '%s.%s' % (f.params[qb[1]].name, qb[2])))
+                        if a_ != b_:
+                            eq[max(a_, b_)] = min(a_, b_)
+                for y_, x_ in leq.items():
+                    ry, rx = find(y_), find(x_)
+                    if ry != rx:
+                        eq[max(ry, rx)] = min(ry, rx)
+            for (pa, pb) in con[cn]:
+                if pa[1] >= len(args) or pb[1] >= len(args) or pa[1] == pb[1]:
+                    continue
+                if f.name in BODRATO and cn in BODRATO | {'_mzd_mul_m4rm'} and 0 in (pa[1], pb[1]) and fs_in_bodrato_block(sh.fs, c):
+                    continue      # destination quadrants are scratch inside the Bodrato sequence
+                ra, rb = rng(args[pa[1]], pa[2]), rng(args[pb[1]], pb[2])
+                if ra is None or rb is None:
+                    continue
+                rr.instances += 1
+                ok = ra[0] == rb[0] and ra[1] == rb[1]
+                callee = prog.funcs[cn]
+                rel = '%s.%s ~ %s.%s' % (callee.params[pa[1]].name, pa[2], callee.params[pb[1]].name, pb[2])
+                rr.ob(ok, dict(caller=f.name, call=pp(c)[:70], axes=rel, range=[repr(ra[0]), repr(ra[1])]) if rr.instances % 20 == 1 else None,
+                      Finding(rule, '%s|%s|%s|%s|%s' % (rule, f.name, cn, rel, '/'.join(pp(strip(a, casts=True))[:12] for a in args[:3])), c.loc, f.name,
+                              '`%s`: axes %s are identified by the contract of %s but cover [%r, %r) and [%r, %r): the blocks are not at matching positions' % (
+                                  pp(c)[:70], rel, cn, ra[0], ra[1], rb[0], rb[1]), {}, label))
+            if leq:
+                eq.clear()
+                eq.update(eq_saved)
+    rr.require_floor(40 if only_funcs is None else (2 if len(only_funcs) > 2 else 0), 'positioned contract equalities')
+    return rr
+
+
+def fs_in_bodrato_block(fs, call):
+    """inside the inner `{ ... }` block that declares the quadrant windows (not the remainder strips after it)"""
+    blk = fs.enclosing(call, ('CompoundStmt',))
+    while blk is not None:
+        n = sum(1 for x in blk.kids if x.kind == 'DeclStmt' and any(callee_name(c) in ('mzd_init_window', 'mzd_init_window_const') for c in x.find('CallExpr')))
+        if n >= 8:
+            return True
+        blk = fs.enclosing(blk, ('CompoundStmt',))
+    return False
+
+
+def rule_F3a(ctx, prog, label, rule='F3a'):
+    """Bound shape of every window: each row/column bound is a linear form in operand dimensions, split variables and
+    rank counters whose constant part is a multiple of 64 - the library never cuts legitimately at `e + c`, c not a multiple of 64."""
+    rr = RuleResult(rule, 'window bounds are sums of dimensions/split variables with constant part 0 mod 64 (no off-by-one cuts)')
+    for f in sorted(prog.all_funcs(), key=lambda f: (f.file, f.line)):
+        sh = None
+        for c in f.body.find('CallExpr'):
+            if callee_name(c) not in ('mzd_init_window', 'mzd_init_window_const', 'mzp_init_window') or f.name == 'mzd_init_window_const':
+                continue
+            if sh is None:
+                sh = Shapes(prog, f)
+            bounds = c.kids[2:6] if callee_name(c) != 'mzp_init_window' else c.kids[2:4]
+            for b in bounds:
+                rr.instances += 1
+                l = sh.fs.sym(b)
+                ok = l.c % 64 == 0 or not l.t     # pure constants (e.g. 0) and 64-multiples
+                if not l.t:
+                    ok = True
+                rr.ob(ok, dict(function=f.name, bound=pp(b)) if rr.instances % 80 == 1 else None,
+                      Finding(rule, '%s|%s|%s' % (rule, f.name, pp(b)[:40]), c.loc, f.name,
+                              'window bound `%s` = `%r` cuts %d past a dimension/split point: every other window in the library is cut at dimensions, split variables or multiples of 64' % (
+                                  pp(b), l, l.c), dict(window=pp(c)[:100]), label))
+    rr.require_floor(400, 'window bounds')
+    return rr
+
+
+def rule_F3c(ctx, prog, label, rule='F3c'):
+    """Sibling agreement in solve.c: both constructions of 'the padding rows of B' (rows that exist only because A has
+    fewer rows than columns) use the same bounds [A.nrows, B.nrows) x [0, B.ncols)."""
+    rr = RuleResult(rule, 'the padding rows of B are delimited identically wherever they are windowed')
+    found = []
+    for name in ('_mzd_solve_left', '_mzd_pluq_solve_left'):
+        f = prog.func(name)
+        sh = Shapes(prog, f)
+        for c in f.body.find('CallExpr'):
+            if callee_name(c) in ('mzd_init_window', 'mzd_init_window_const'):
+                base = strip(c.kids[1], casts=True)
+                hr = sh.fs.sym(c.kids[4])
+                lr = sh.fs.sym(c.kids[2])
+                if base.kind == 'DeclRefExpr' and base.ref == 'B' and hr == Lin.atom('B.nrows'):
+                    found.append((name, c, lr, sh.fs.sym(c.kids[3]), sh.fs.sym(c.kids[5])))
+    rr.instances = len(found)
+    if len(found) < 2:
+        raise AnalysisBroken('F3c: expected two padding-row windows of B in solve.c, found %d' % len(found))
+    want = (Lin.atom('A.nrows'), Lin(0), Lin.atom('B.ncols'))
+    for (name, c, lr, lc, hc) in found:
+        ok = (lr, lc, hc) == want
+        rr.ob(ok, dict(function=name, window=pp(c)[:80]),
+              Finding(rule, '%s|%s' % (rule, name), c.loc, name,
+                      'padding rows of B are windowed as rows [%r, B.nrows) x columns [%r, %r) here, but they are rows [A.nrows, B.nrows) x [0, B.ncols)' % (lr, lc, hc), {}, label))
+    return rr
+
+
+def rule_F5(ctx, prog, label, rule='F5'):
+    """mzd_kernel_left_pluq: NULL exactly on the branch rank == A->ncols; result created as A->ncols x (A->ncols - rank);
+    identity block written over all of the result's columns at rows rank + i."""
+    rr = RuleResult(rule, 'kernel routine: NULL only when rank == ncols, result is ncols x (ncols - rank), identity block spans all its columns')
+    f = prog.func('mzd_kernel_left_pluq')
+    fs = FuncSym(f)
+    rk = None
+    for n in f.body.walk():
+        if n.kind == 'VarDecl' and n.kids:
+            c = strip(n.kids[-1], casts=True)
+            if c is not None and c.kind == 'CallExpr' and callee_name(c) in ('mzd_pluq', '_mzd_pluq'):
+                rk = n
+    rr.instances += 1
+    if rk is None:
+        rr.ob(False, None, Finding(rule, '%s|rank' % rule, f.loc, f.name, 'the rank is no longer taken from mzd_pluq', {}, label))
+        return rr
+    rr.ob(True, dict(rank_variable=rk.name))
+    A = f.params[0].name
+    nulls = [r for r in f.body.find('ReturnStmt') if r.kids and is_null(r.kids[0])]
+    rr.instances += 1
+    ok = len(nulls) == 1
+    why = '%d `return NULL` statements' % len(nulls)
+    if ok:
+        ifs = fs.enclosing(nulls[0], ('IfStmt',))
+        c = strip(ifs.kids[0], casts=True) if ifs is not None else None
+        ok = c is not None and c.kind == 'BinaryOperator' and c.op == '==' and \
+            {pp(strip(c.kids[0], casts=True)), pp(strip(c.kids[1], casts=True))} == {rk.name, '%s->ncols' % A} and any(x is nulls[0] for x in ifs.kids[1].walk())
+        why = 'guard is `%s`' % (pp(c) if c is not None else None)
+    rr.ob(ok, dict(obligation='NULL iff rank == ncols', verdict=why),
+          Finding(rule, '%s|null-guard' % rule, nulls[0].loc if nulls else f.loc, f.name, 'the NULL result is not guarded by `%s == %s->ncols` (%s)' % (rk.name, A, why), {}, label))
+    res = [r for r in f.body.find('ReturnStmt') if r.kids and not is_null(r.kids[0])]
+    rr.instances += 1
+    rv = strip(res[0].kids[0], casts=True) if res else None
+    shp = Shapes(prog, f).shape(rv) if rv is not None else None
+    rk_lin = fs.sym(rk.kids[-1])
+    want_r, want_c = Lin.atom('%s.ncols' % A), Lin.atom('%s.ncols' % A) - rk_lin
+    ok = shp is not None and shp.get('nrows') == want_r and shp.get('ncols') == want_c
+    rr.ob(ok, dict(obligation='result shape', shape=[repr(shp.get('nrows')), repr(shp.get('ncols'))] if shp else None),
+          Finding(rule, '%s|shape' % rule, res[0].loc if res else f.loc, f.name,
+                  'the kernel basis is created as %s x %s, expected %r x %r' % (repr(shp.get('nrows')) if shp else '?', repr(shp.get('ncols')) if shp else '?', want_r, want_c), {}, label))
+    rr.instances += 1
+    qarg = None
+    for c in f.body.find('CallExpr'):
+        if callee_name(c) in ('mzd_pluq', '_mzd_pluq') and len(c.kids) >= 4:
+            qarg = pp(strip(c.kids[3], casts=True))
+    applied = [pp(strip(c.kids[2], casts=True)) for c in f.body.find('CallExpr')
+               if callee_name(c) == 'mzd_apply_p_left_trans' and rv is not None and pp(strip(c.kids[1], casts=True)) == pp(rv)]
+    okq = qarg is not None and applied == [qarg]
+    rr.ob(okq, dict(obligation='the column permutation of the factorisation is undone on the rows of the result', permutation=qarg),
+          Finding(rule, '%s|undo-Q' % rule, f.loc, f.name,
+                  'the kernel basis is permuted with %s, expected exactly one mzd_apply_p_left_trans(%s, %s) with the Q that mzd_pluq filled' % (applied, pp(rv) if rv is not None else '?', qarg), {}, label))
+    rr.instances += 1
+    ok = False
+    why = 'no loop writing the identity block'
+    for lp in f.body.find('ForStmt'):
+        iv = fs._induction(lp)
+        if iv is None:
+            continue
+        vid, lo, hi, step = iv
+        for c in lp.kids[4].find('CallExpr'):
+            if callee_name(c) == 'mzd_write_bit' and rv is not None and pp(strip(c.kids[1], casts=True)) == pp(rv) and int_value(c.kids[4]) == 1:
+                row, col = fs.sym(c.kids[2]), fs.sym(c.kids[3])
+                i = Lin.atom(fs.decl[vid].name)
+                hi2 = Shapes(prog, f).lin(strip(lp.kids[2]).kids[1], lp)
+                if lo == Lin(0) and hi2 == want_c and row == rk_lin + i and col == i:
+                    ok = True
+                else:
+                    why = 'identity loop writes (%r, %r) for %s in [%r, %r)' % (row, col, fs.decl[vid].name, lo, hi2)
+    rr.ob(ok, dict(obligation='identity block over all columns at rows rank + i'),
+          Finding(rule, '%s|identity' % rule, f.loc, f.name, 'the identity block of the kernel basis is wrong: %s; expected (rank + i, i) for i in [0, ncols - rank)' % why, {}, label))
+    return rr
